@@ -86,6 +86,10 @@ def plan(tier, seed):
                 for so in ('line', 'tiny'):
                     ch.append({'k': 'single', 'scen': {'mode': 'f', 'second': kind, 'K': K, 'hex': hexm, 'stdout': so}})
         ch.append({'k': 'single', 'scen': {'mode': 'f', 'second': 'fine', 'K': K, 'hex': True}})
+        # no standard output at all (sys.stdout is None when descriptor 1 is closed): nothing can be printed, so nothing is removed
+        for kind in F_KINDS:
+            for hexm in (False, True):
+                ch.append({'k': 'single', 'scen': {'mode': 'f', 'second': kind, 'K': K, 'hex': hexm, 'stdout': 'none'}})
     if tier == 'thorough':
         for mode in ('j', 'jo'):
             for sec in J_SECONDS:
@@ -166,7 +170,7 @@ class Run:
         stdout = None
         if mode == 'f':
             so = self.scen.get('stdout', 'block')
-            stdout = faultio.make_stdout(world, line_buffering=(so == 'line'), buffer_size=(16 if so == 'tiny' else 8192),
+            stdout = clidrv.NO_STDOUT if so == 'none' else faultio.make_stdout(world, line_buffering=(so == 'line'), buffer_size=(16 if so == 'tiny' else 8192),
                                          backing_path=os.path.join(self.root, 'stdout.bin'))
             argv = ['-f', os.path.join(pels, 'p2_input'), '--clean'] + (['-x'] if self.scen.get('hex') else [])
         elif mode == 'j':
@@ -178,7 +182,7 @@ class Run:
             r = clidrv.run_main(argv, order='sorted', stdout=stdout, open_fn=faultio.make_open(world), remove_hook=on_remove)
             core.disarm()
             self.result = r
-            if mode == 'f' and not world.crashed:
+            if mode == 'f' and not world.crashed and stdout is not clidrv.NO_STDOUT:
                 # interpreter shutdown: flush what is still buffered
                 try:
                     stdout.flush()
@@ -389,6 +393,14 @@ def _subproc(res):
         p = fresh('in_devfull_hex', small)
         rc, _, se = clidrv.run_subprocess(['-f', p, '-x', '--clean'], stdout_path='/dev/full')
         runs.append(('-f <small> -x --clean > /dev/full', os.path.exists(p), True, 'output-failed'))
+        # 5d. no standard output at all (file descriptor 1 closed, as under cron or a service manager): the output cannot
+        #     even be opened, nothing is printed anywhere
+        for extra in ([], ['-x']):
+            for data, tag in ((good, ''), (small, ' <small>')):
+                p = fresh('in_closed%s%s' % ('_hex' if extra else '', '_small' if tag else ''), data)
+                pr = subprocess.run([core.PY, clidrv.PELTOOL_PY, '-f', p, '--clean'] + extra, stderr=subprocess.PIPE, env=env,
+                                    preexec_fn=lambda: os.close(1))
+                runs.append(('-f%s%s --clean >&- (stdout closed)' % (tag, ' -x' if extra else ''), os.path.exists(p), True, 'output-failed'))
         # 6. fault-free real runs remove the input (non-vacuity)
         p = fresh('in_ok', good)
         rc, so, se = clidrv.run_subprocess(['-f', p, '--clean'])
